@@ -5,7 +5,7 @@ PROP = dict(
     lean_module="AbraProofs.Properties.C30",
     required_theorems=["C30_int_literal_roundtrip", "C30_int_literal_value", "C30_int_literal_out_of_range",
                        "C30_float_literal_token", "C30_escape_roundtrip", "C30_scan_finds_close",
-                       "C30_quoted_roundtrip", "C30_strip_spec_partial", "C30_strip_spec"],
+                       "C30_quoted_roundtrip", "C30_strip_spec_partial", "C30_strip_spec", "C30_int_pattern_literal"],
     harness_bin="c30",
     # the lexer's answer on malformed literal text (bad escapes, unterminated literals) is more than the
     # property fixes; a violation of the property is found by the harness's own oracle (lexer payload and
@@ -18,7 +18,8 @@ PROP = dict(
          "{letters, digits, spaces, both quotes, backslash, newline, tab, CR, other control chars, DEL, non-ASCII incl. NBSP and "
          "U+2028} spelled in single, double and triple quotes (block / opener-residue / inline-closer / single-line layouts, "
          "space and tab indentation, blank lines); raw literal texts with bad escapes and unterminated literals for the lexer's "
-         "error branches. Per literal: lexer payload+spans (verif_lex) vs the Lean lexer model, the generator's escape printer "
+         "error branches; literals in PATTERN position (`match v { <literal> -> hit  _ -> miss }`: ints with `_` incl. the boundary and "
+         "out-of-range ones, floats, strings in the other quote style, hits and near misses); programs behind a `#!` first line. Per literal: lexer payload+spans (verif_lex) vs the Lean lexer model, the generator's escape printer "
          "vs the Lean `escape`, parser range check vs `intLiteral`, and the value printed by a running program vs the intended "
          "value. distinct = distinct literal texts; non-trivial = contains `_`, a backslash, a newline or is out of range",
     nontrivial=lambda req, imp: any(x in req.split()[1] for x in ("5f", "5c", "0a")) if req.startswith("lex ") else
@@ -29,6 +30,7 @@ PROP = dict(
         "str::parse::<i64> is assumed to be exact decimal conversion with range check (modelled by intLiteral)",
     ],
     assumptions=[
+        "there is no signed literal pattern (`-1 -> …` is a syntax error in the unchanged parser): pattern literals are the unsigned spellings",
         "triple-quoted literals: the layouts used are those of the pinned tests multiline_string_* (whitespace-only first "
         "line and closing line dropped, line 0 after the opener verbatim, common indentation of the other non-blank lines "
         "removed); a text whose last raw character is `\"` is not written with an inline closer, a whitespace-only text "
